@@ -260,7 +260,7 @@ func govcWalRun(t *testing.T, prog []govcWalOp, limit uint64, failAt int, thorou
 			}
 			seen := map[int]bool{}
 			for _, cut := range cuts {
-				if seen[cut] {
+				if seen[cut] || cut < floor || cut >= len(full) {
 					continue
 				}
 				seen[cut] = true
